@@ -50,7 +50,7 @@ LEVEL_TEXT = ("generated-input search over the ClientHello grammar, its fragment
               "result is compared with an independent parser; not exhaustive")
 LEVEL_NOTE = "trusts lib/ref_clienthello.py and the sans-io driver"
 QUICK_N, THOROUGH_N = 40_000, 4_000_000
-BUDGET_S = (150, 3600)
+BUDGET_S = (240, 3600)
 
 # ------------------------------------------------------------------------------------------------ strategies
 _label_chars = "abcdefghijklmnopqrstuvwxyzABCXYZ0123456789-_"
